@@ -224,6 +224,8 @@ def leaf_templates():
     one("opt:P", "optional", lambda n: field(n, "P", optional="true"))
     one("opt:E1", "optional", lambda n: field(n, "E1", optional="true"))
     one("opt:arr", "optional", lambda n: array(n, "char", optional="true"))
+    one("opt:arr2", "optional", lambda n: array(n, "char", length="2", optional="true"))
+    one("opt:str2", "optional", lambda n: field(n, "string", length="2", optional="true"))
     # length pairs
     def pair(tid, mk):
         t.append(_T(tid, 2, mk, "length pairs"))
@@ -278,7 +280,7 @@ MID_IDS = (
     "struct:P", "struct:V", "struct:U", "struct:K", "struct:O", "struct:F",
     "str", "estr", "blob", "str3p", "estr3p",
     "hc:char", "hc:str", "hcn:str", "hcn:bool", "hc:str-esc",
-    "opt:char", "opt:str", "opt:P", "opt:arr",
+    "opt:char", "opt:str", "opt:P", "opt:arr", "opt:arr2",
     "len:str", "len:str-1", "len:arr", "len:darrU-nt", "optlen:str",
     "arr:char", "arr:P", "arr:V", "arr:F", "darr:U", "darr:U:nt", "darr:K", "darr:U2:nt", "darr:str",
     "dummy:char", "dummy:str", "break",
